@@ -4,6 +4,7 @@ package resolve
 // independent of the order of the list.
 
 import (
+	"context"
 	"strings"
 
 	"deps.dev/util/resolve/version"
@@ -150,4 +151,72 @@ func VerifC12Match() {
 	for i := 0; i < k; i++ {
 		vAssert(s1[i].VersionKey == s3[i].VersionKey, "SortVersions is idempotent")
 	}
+}
+
+// VerifC12ClientMatch: LocalClient.MatchingVersions answers from the client's current list. The same versions
+// as in VerifC12Match are added to a client (in the permuted order), the requirement is asked, one version is
+// added again with its tag changed (the latest tag moves), and the requirement is asked again: each answer
+// equals MatchRequirement over the list the client holds at that moment, records included.
+func VerifC12ClientMatch() {
+	sys := System(vParam("sys"))
+	k := vParam("k")
+	ctx := context.Background()
+	pk := PackageKey{System: sys, Name: "p"}
+	vs := make([]Version, k)
+	for i := 0; i < k; i++ {
+		s := c12Inst(c12VerTemplates[vParam("vt"+c13D[i])], "v"+c13D[i])
+		vObserveStr("v"+c13D[i], s)
+		vs[i] = Version{VersionKey: VersionKey{PackageKey: pk, VersionType: Concrete, Version: s}}
+		if vParam("latest") == i {
+			vs[i].SetAttr(version.Tags, "latest")
+		}
+	}
+	for i := 0; i < k; i++ {
+		_, perr := sys.Semver().Parse(vs[i].Version)
+		vAssume(perr == nil)
+		for j := i + 1; j < k; j++ {
+			vAssume(vs[i].Version != vs[j].Version)
+		}
+	}
+	rs := c12Inst(c12ReqTemplates[sys][vParam("rt")], "r")
+	vObserveStr("req", rs)
+	req := VersionKey{PackageKey: pk, VersionType: Requirement, Version: rs}
+	lc := NewLocalClient()
+	for i := k - 1; i >= 0; i-- {
+		lc.AddVersion(vs[i], nil)
+	}
+	same := func(what string) {
+		got, err := lc.MatchingVersions(ctx, req)
+		vAssert(err == nil, what+": matching against a known package succeeds")
+		cur := make([]Version, k)
+		copy(cur, vs)
+		want := MatchRequirement(req, cur)
+		vCover(len(want) > 0, "the client matched some version")
+		vAssert(len(got) == len(want), what+": the client returns exactly the versions of its current list that satisfy the requirement")
+		if len(got) == len(want) {
+			for i := range got {
+				vAssert(got[i].VersionKey == want[i].VersionKey, what+": the client returns them in ecosystem order")
+				vAssert(got[i].AttrSet.Equal(want[i].AttrSet), what+": the client returns the records of its current list")
+			}
+		}
+	}
+	same("first answer")
+	same("asked again")
+	// the latest tag moves to another version; a version that had it loses it
+	mv := vParam("move")
+	for i := 0; i < k; i++ {
+		had := vs[i].HasAttr(version.Tags)
+		if i == mv || had {
+			nv := Version{VersionKey: vs[i].VersionKey}
+			if i == mv && !had {
+				nv.SetAttr(version.Tags, "latest")
+			} else if i == mv {
+				nv.SetAttr(version.Blocked, "")
+			}
+			vs[i] = nv
+			lc.AddVersion(nv, nil)
+		}
+	}
+	vCover(true, "a version added again with other attributes")
+	same("after a version was added again with other attributes")
 }
